@@ -1,7 +1,216 @@
-//! C08 — not implemented yet (see DESIGN.md section 4).
-use kit::Run;
-use serde_json::Value;
+//! C08 — same-size manifest replacement only changes the reported manifest region.
+//!
+//! S-inp: every seed asset x embedding state {fresh, has manifest (other size), handler-rewritten} x every
+//! store length of the quick set (C07's set) x a pair of equal-length stores A != B. Region := the `Cai`
+//! entries of the handler's object locations for the asset that holds A.
+//! Oracle (from the property text, nothing more): region inside the file; disjoint from every other reported
+//! region; A's bytes lie inside it (the independent walker's payload ranges are inside it and the SDK reads A
+//! back); |asset_A| = |asset_B|; every differing byte between asset_A and the asset obtained by replacing A
+//! with B (and between asset_A and a fresh write of B) lies inside the region. Where the handler implements
+//! in-place patching (`AssetPatch::patch_cai_store`, file based) the patched file must equal the rewrite.
+//!
+//! Mutants caught (tools/mutant_run.sh A <diff> C08 quick):
+//!   C08-png-cai-length.diff  (PNG Cai length without the 12 header/CRC bytes)  -> VIOLATION
 
-pub fn run(_run: &Run, _replay: Option<&Value>) {
-    kit::ev::machinery("C08: check not implemented");
+use kit::embed::{self, kind_of_err, load, locations, remove, save};
+use kit::walk;
+use kit::{assets::Asset, par, Run};
+use serde_json::{json, Value};
+
+const STATES: [&str; 3] = ["fresh", "has-manifest", "rewritten"];
+
+fn base_state(a: &Asset, st: &str) -> Vec<u8> {
+    match st {
+        "fresh" => a.data.clone(),
+        "has-manifest" => save(a.mime, &a.data, &embed::store(333, 9)).unwrap_or_else(|e| kit::ev::machinery(format!("C08: seed {} rejects a store: {e}", a.name))),
+        "rewritten" => remove(a.mime, &a.data).unwrap_or_else(|e| kit::ev::machinery(format!("C08: seed {} cannot be rewritten: {e}", a.name))),
+        _ => kit::ev::machinery("C08: unknown state"),
+    }
+}
+
+/// Formats whose handler reports no data-hash regions at all (BMFF uses its own exclusion scheme, the sidecar
+/// has nothing to hash); for them the region is the independent walker's manifest container.
+fn reports_no_region(a: &Asset) -> bool {
+    matches!(embed::kind(a), walk::Kind::Bmff | walk::Kind::C2pa)
+}
+
+fn case(run: &Run, a: &Asset, st: &str, base: &[u8], n: usize) {
+    run.eval();
+    let cj = json!({"asset":a.name,"state":st,"n":n});
+    let v = |class: &str, what: String| {
+        run.outcome(class.to_string());
+        embed::report(run, format!("{class} fmt={:?} asset={} state={st}", embed::kind(a), a.name), format!("n={n}: {what}"), cj.clone());
+    };
+    let (sa, sb) = (embed::store(n, 1), embed::store(n, 2));
+    let (fa, fb) = match (save(a.mime, base, &sa), save(a.mime, base, &sb)) {
+        (Ok(x), Ok(y)) => (x, y),
+        (x, y) => {
+            let e = x.err().or(y.err()).unwrap_or_default();
+            return v(&format!("write-error {}", kind_of_err(&e)), e);
+        }
+    };
+    // replace A by B inside asset_A
+    let rb = match save(a.mime, &fa, &sb) {
+        Ok(x) => x,
+        Err(e) => return v(&format!("replace-error {}", kind_of_err(&e)), e),
+    };
+    // region
+    let k = embed::kind(a);
+    let locs = match locations(a.mime, &fa) {
+        Ok(l) => l,
+        Err(e) => return v(&format!("locations-error {}", kind_of_err(&e)), e),
+    };
+    let ms = match walk::manifests(k, &fa) {
+        Ok(m) if m.len() == 1 => m,
+        Ok(m) => return v("walker-count", format!("independent walker finds {} manifest containers in asset_A", m.len())),
+        Err(e) => return v("walker-error", e),
+    };
+    let mut region: Vec<(usize, usize)> = locs.iter().filter(|l| l.2 == "Cai").map(|l| (l.0, l.0 + l.1)).collect();
+    let others: Vec<(usize, usize, &str)> = locs.iter().filter(|l| l.2 != "Cai").map(|l| (l.0, l.0 + l.1, l.2.as_str())).collect();
+    if region.is_empty() {
+        if reports_no_region(a) {
+            region = ms[0].ranges.iter().map(|r| (r.start, r.end)).collect();
+            run.outcome("region-from-walker");
+        } else {
+            return v("no-cai-region", "handler reports no Cai region for an asset that holds a manifest".into());
+        }
+    }
+    let inside = |p: usize| region.iter().any(|(s, e)| *s <= p && p < *e);
+    // within the file
+    for (s, e) in &region {
+        if *e > fa.len() || s > e {
+            v("region-outside-file", format!("Cai region {s}..{e} but the file has {} bytes", fa.len()));
+        }
+    }
+    // disjoint from the other reported regions
+    for (s, e, t) in &others {
+        if s < e && region.iter().any(|(rs, re)| rs < e && s < re) {
+            v(&format!("region-overlaps {t}"), format!("Cai region {:?} overlaps reported {t} region {s}..{e}", region));
+        }
+    }
+    // contains the store
+    match load(a.mime, &fa) {
+        Ok(b) if b == sa => {}
+        other => v("readback", format!("asset_A does not read back A: {:?}", other.map(|b| b.len()))),
+    }
+    for r in &ms[0].payload_ranges {
+        if r.start < r.end && !(inside(r.start) && inside(r.end - 1)) {
+            v("store-outside-region", format!("store bytes at {}..{} are not inside the reported Cai region {:?}", r.start, r.end, region));
+            break;
+        }
+    }
+    // same size, diffs confined to the region
+    for (name, other) in [("replace", &rb), ("fresh-B", &fb)] {
+        if other.len() != fa.len() {
+            v(&format!("size-changes {name}"), format!("asset_A has {} bytes, {name} has {}", fa.len(), other.len()));
+            continue;
+        }
+        if let Some(p) = (0..fa.len()).find(|&p| fa[p] != other[p] && !inside(p)) {
+            let cnt = (0..fa.len()).filter(|&p| fa[p] != other[p] && !inside(p)).count();
+            v(&format!("diff-outside-region {name}"), format!("{cnt} byte(s) outside the Cai region {:?} differ, first at offset {p} ({:#04x} -> {:#04x})", region, fa[p], other[p]));
+        }
+    }
+    if rb != fb {
+        // not demanded by the property; recorded as an outcome only
+        run.outcome("replace-differs-from-fresh-write");
+    }
+    run.outcome("checked");
+    run.nontrivial(format!("{}/{st}/{n}", a.name));
+}
+
+/// In-place patching through the file based AssetPatch interface (hook `patch_cai_store`).
+fn patch_case(run: &Run, a: &Asset, n: usize, dir: &std::path::Path) {
+    let cj = json!({"asset":a.name,"state":"patch","n":n});
+    let (sa, sb) = (embed::store(n, 1), embed::store(n, 2));
+    let Ok(fa) = save(a.mime, &a.data, &sa) else { return };
+    let Ok(rb) = save(a.mime, &fa, &sb) else { return };
+    let p = dir.join(format!("{}-{n}.{}", a.name, a.ext));
+    if std::fs::write(&p, &fa).is_err() {
+        kit::ev::machinery("C08: cannot write temp file");
+    }
+    let r = par::guard(|| c2pa::verif_hooks::patch_cai_store(a.mime, &p, &sb));
+    match r {
+        Ok(None) => run.outcome("patch-unsupported"),
+        Ok(Some(Ok(()))) => {
+            run.eval();
+            let got = std::fs::read(&p).unwrap_or_default();
+            if got != rb {
+                let first = got.iter().zip(rb.iter()).position(|(x, y)| x != y);
+                embed::report(run, format!("patch-differs-from-rewrite fmt={:?} asset={}", embed::kind(a), a.name), format!("n={n}: patched file ({} bytes) != rewritten asset ({} bytes), first diff {first:?}", got.len(), rb.len()), cj);
+            } else {
+                run.outcome("patch-equals-rewrite");
+                run.nontrivial(format!("patch/{}/{n}", a.name));
+            }
+        }
+        Ok(Some(Err(e))) => {
+            run.eval();
+            embed::report(run, format!("patch-error fmt={:?} {} asset={}", embed::kind(a), kit::sdk::err_kind(&e), a.name), format!("n={n}: {e:?}"), cj);
+        }
+        Err(pn) => {
+            run.eval();
+            embed::report(run, format!("patch-panic fmt={:?} asset={}", embed::kind(a), a.name), format!("n={n}: {pn}"), cj);
+        }
+    }
+    let _ = std::fs::remove_file(&p);
+}
+
+pub fn run(run: &Run, replay: Option<&Value>) {
+    run.rule("per seed asset x state {fresh, has-manifest, rewritten} x store length n: equal-length stores A,B; Cai region of object_locations(asset_A) must lie in the file, be disjoint from the other reported regions, contain A's bytes, and contain every byte that differs between asset_A and (i) asset_A with A replaced by B, (ii) a fresh write of B; sizes equal. non-trivial = cases where all three writes succeeded and a region was available to judge. Plus AssetPatch::patch_cai_store == rewrite on a length subset.");
+    run.assume("for BMFF and the .c2pa sidecar the handler reports no data-hash regions at all; there the region is the manifest container located by the independent walker (C2PA uuid box / whole file)");
+    run.assume("'contains the embedded store' is judged by the independent walker's payload ranges lying inside the region plus the SDK reading A back");
+    let seeds = embed::seeds();
+    if let Some(c) = replay {
+        let a = embed::seed(c["asset"].as_str().unwrap_or(""));
+        let st = c["state"].as_str().unwrap_or("fresh");
+        let n = c["n"].as_u64().unwrap_or(100) as usize;
+        if st == "patch" {
+            let d = tempfile::tempdir().unwrap_or_else(|e| kit::ev::machinery(format!("tempdir: {e}")));
+            patch_case(run, &a, n, d.path());
+        } else {
+            case(run, &a, st, &base_state(&a, st), n);
+        }
+        println!("replay: {} violation(s)", run.violation_count());
+        return;
+    }
+    // determinism
+    for a in &seeds {
+        let s = embed::store(200, 1);
+        if save(a.mime, &a.data, &s) != save(a.mime, &a.data, &s) {
+            kit::ev::machinery(format!("C08: nondeterministic write for {}", a.name));
+        }
+    }
+    let lens: Vec<usize> = if run.tier.is_thorough() {
+        let mut v: Vec<usize> = (embed::MIN_STORE..=20_000).collect();
+        v.extend(embed::quick_lengths().into_iter().filter(|n| *n > 20_000));
+        v
+    } else {
+        // every n up to 600 (all 1/2-byte size-field and base64/pad phases, GIF 255-byte sub-block and ID3 syncsafe 128 boundaries), then the boundary windows
+        let mut v: Vec<usize> = (embed::MIN_STORE..=600).collect();
+        v.extend(embed::quick_lengths().into_iter().filter(|n| *n > 4096 && *n < 70_000));
+        v
+    };
+    let bases: Vec<Vec<Vec<u8>>> = seeds.iter().map(|a| STATES.iter().map(|s| base_state(a, s)).collect()).collect();
+    let total = seeds.len() * STATES.len() * lens.len();
+    run.space(&format!("{} seeds x {} states x {} lengths ({})", seeds.len(), STATES.len(), lens.len(),
+        if run.tier.is_thorough() { "every n in [46,20000] + boundary windows" } else { "every n in [46,600] + windows +-8 around 64000 and 65536" }), total as u64, true);
+    par::for_each_index(total as u64, |i| {
+        let i = i as usize;
+        let ai = i % seeds.len();
+        let si = (i / seeds.len()) % STATES.len();
+        let n = lens[i / (seeds.len() * STATES.len())];
+        case(run, &seeds[ai], STATES[si], &bases[ai][si], n);
+    });
+    // patching
+    let d = tempfile::tempdir().unwrap_or_else(|e| kit::ev::machinery(format!("tempdir: {e}")));
+    let plens: Vec<usize> = lens.iter().cloned().filter(|n| *n <= 200 || *n > 4096).collect();
+    let ptotal = seeds.len() * plens.len();
+    run.space("AssetPatch::patch_cai_store vs rewrite: seeds x lengths (n<=200 + boundary windows)", ptotal as u64, true);
+    par::for_each_index(ptotal as u64, |i| {
+        let i = i as usize;
+        patch_case(run, &seeds[i % seeds.len()], plens[i / seeds.len()], d.path());
+    });
+    run.sample(json!({"asset":"jpeg","state":"fresh","n":64001,"note":"two APP11 segments, one Cai region"}));
+    run.sample(json!({"asset":"wav","state":"has-manifest","n":101,"note":"odd RIFF chunk, pad byte"}));
+    run.sample(json!({"asset":"tiff-II-2pages","state":"fresh","n":300}));
+    run.sample(json!({"asset":"mp4","state":"fresh","n":500,"note":"region from walker (handler reports none)"}));
 }
